@@ -8,7 +8,7 @@ from spec import F
 PC = repo("pyModeS.py_common")
 RTL = repo("pyModeS.extra.rtlreader")
 P = "pyModeS.py_common."
-CRC_USERS = ("C01", "C02", "C08", "C17", "C19")
+CRC_USERS = ("C01", "C02", "C08", "C19")
 
 
 @harness(CRC_USERS, inputs={"msg": HexStr((14, 28)), "encode": Choice(False, True)}, functions=[P + "crc"],
